@@ -4,6 +4,8 @@ package quic
 
 import (
 	"bytes"
+	"crypto/hmac"
+	"crypto/sha256"
 	"fmt"
 	"math/rand/v2"
 	"net/netip"
@@ -447,6 +449,20 @@ func TestVerif_C31(t *testing.T) {
 		if b := g.tokenForConnID(cid); a != b {
 			c.Violation("reset-token-not-deterministic", "zero-key generator: cid %x gives %x then %x", cid, a, b)
 		}
+		// "differ for different keys": without a configured key every generator picks its own
+		// random secret, so two of them agree on a token with probability 2^-128, and none of
+		// them uses a key an outsider can know (the all-zero key it was handed).
+		var g2 statelessResetTokenGenerator
+		g2.init([32]byte{})
+		if b := g2.tokenForConnID(cid); a == b {
+			c.Violation("reset-token-same-for-independent-random-keys", "two generators initialised without a configured key give the same token %x for cid %x", a, cid)
+		}
+		mac := hmac.New(sha256.New, make([]byte, 32))
+		mac.Write(cid)
+		if sum := mac.Sum(nil); bytes.Equal(sum[:len(a)], a[:]) {
+			c.Violation("reset-token-from-all-zero-key", "generator initialised without a configured key gives HMAC-SHA256(all-zero key, cid) = %x for cid %x: the secret is not random", a, cid)
+		}
+		ev("reset_zero_key_generators_compared", 1)
 		r.Eval(true, "zero", c.Index)
 	})
 	// one generator used from many goroutines (meaningful under -race): same answers as sequentially
